@@ -10,6 +10,9 @@ var c15Programs = []string{
 	`for i = 3 { println(i, "x") /* c */ }`, `y = "a string" + "q\"uoted" + ` + "`raw`", `z = f(1, g(2, 3), [4])`,
 	`if a && (b || c) { d } else if e { f } else { g }`, `l = (a, b) => { a + b }`, `m2 = macro(x) { quote(unquote(x) + 1) }`,
 	`a = b[1:2] + c[-1] - d.e.f`, `p = !q == -r * +s`, `n = 1 : 10`, `t = x => y => x + y`,
+	// strings and comments that start a statement, directly or after another statement
+	`"a string statement"`, "`a raw one`", `a = 1; "second statement"`, `a = 1 "glued string"`, "println(1)\n`raw after a line`", `/*/ tricky */ a`, `a = 1 /*/ c */`, `/* only */`,
+	`if a {"in a block"}`, `f = () => "lambda value"`, `["in", "a list"]`, `{"k": "v"}`, `return "s"`,
 }
 
 // c15Cuts returns prefixes of prog that end at a token boundary inside an open ( [ { or string/comment, or right
